@@ -180,6 +180,9 @@ def wl_dfs(ctx, rng, case_no):
 
 
 def execute(ctx, prog, display, terminal, firings, height, strategy, strat_kind, sseed, plan_of=None):
+    # a transient display clears itself on stop(): the final-screen oracle then expects no frame at all
+    from rv.core.ctx import stable_hash
+    transient = stable_hash((repr(prog), sseed, firings)) % 4 == 0
     from rv.sched import scheduler as S
     from rv.sched import coop
     from rich.console import Console
@@ -200,7 +203,7 @@ def execute(ctx, prog, display, terminal, firings, height, strategy, strat_kind,
     if display.startswith("live"):
         from rich.live import Live
         live = Live(Text("F0_0-0"), console=console, auto_refresh=display == "live_auto", refresh_per_second=10,
-                    transient=False, redirect_stdout=False, redirect_stderr=False)
+                    transient=transient, redirect_stdout=False, redirect_stderr=False)
         frames["F0_0"] = ["F0_0-0"]
     elif display.startswith("progress"):
         from rich.progress import Progress
@@ -284,7 +287,7 @@ def execute(ctx, prog, display, terminal, firings, height, strategy, strat_kind,
     _uninstrument()
     ctx.count("mon.schedules")
     ctx.count("mon.deadlock_detector")
-    wit = {"display": display, "terminal": terminal, "program": prog, "strategy": strat_kind, "schedule_seed": sseed,
+    wit = {"display": display, "transient": transient, "terminal": terminal, "program": prog, "strategy": strat_kind, "schedule_seed": sseed,
            "timer_firings": holder["firings"], "outcome": outcome, "switches": sched.switches, "steps": sched.step}
     if plan_of is not None:
         wit["preemption_plan"] = sorted(plan_of.plan.items())
@@ -410,7 +413,7 @@ def execute(ctx, prog, display, terminal, firings, height, strategy, strat_kind,
         tall = any(len(v) >= console.size.height for v in frames.values())
         if tall:
             ctx.count("screen_replay_skipped_tall_frame")
-        elif flat != want or (last_frame is not None and frame_on_screen != last_frame):
+        elif flat != want or (last_frame is not None and frame_on_screen != ([] if transient else last_frame)):
             mech = "screen-differs-from-file-order-plus-last-frame:%s" % display
             if tainted:
                 mech = "print-vs-refresh-window:%s" % ("live")
